@@ -1,5 +1,5 @@
 /-
-C06 — parallel_scan: specification predicates and the no-steal case.
+C06 — parallel_scan: specification predicates and basic heap facts (the no-steal case is a corollary in ScanGen).
 -/
 import TbbVerif.Proofs.C06.Reduce
 
@@ -94,142 +94,7 @@ theorem val_setVal_other (c : Ctx) (b b' : Nat) (v : List Nat) (h : b ≠ b') : 
 theorem finals_append (l1 l2 : List Ev) : finals (l1 ++ l2) = finals l1 ++ finals l2 := by
   simp [finals]
 
-/-! ### no steal: everything runs sequentially on the one body, in final mode -/
-
-def noSteal (o : Oracle) : Prop := ∀ lo hi, o.stolen lo hi = false
-
-/-- outcome of a task in final mode when nothing is stolen: it final-scans its whole range on `b` -/
-structure SeqRes (L lo hi : Nat) (b : Nat) (hasSS : Bool) (c : Ctx) (r : R1) : Prop where
-  ret : r.ret = .nil
-  zombie : r.zombie = none
-  sum : r.sum = (if hasSS then some b else none)
-  err : r.ctx.err = c.err
-  len : r.ctx.heap.length = c.heap.length
-  val : r.ctx.val b = c.val b ++ rng lo hi
-  other : ∀ b', b' ≠ b → r.ctx.val b' = c.val b'
-  log : ∃ evs, r.ctx.log = c.log ++ evs ∧ (∀ e, e ∈ evs → ∃ x y inc, e = Ev.fin b x y inc) ∧
-        (c.val b = rng L lo → chain L lo (finals evs) hi)
-
-theorem finalScan_seq (L lo hi : Nat) (b : Nat) (hasSS : Bool) (c : Ctx) (hlt : lo < hi) (hb : b < c.heap.length)
-    (z : Option Nat) (hz : z = none) :
-    SeqRes L lo hi b hasSS c ⟨c.finalScan b lo hi, .nil, if hasSS then some b else none, z⟩ := by
-  subst hz
-  refine ⟨rfl, rfl, rfl, rfl, ?_, ?_, ?_, ?_⟩
-  · simp [Ctx.finalScan, Ctx.setVal]
-  · simp only [Ctx.finalScan]
-    have := val_setVal_same c b (c.val b ++ rng lo hi) hb
-    simpa [Ctx.val, Ctx.setVal] using this
-  · intro b' hne
-    simp only [Ctx.finalScan]
-    have := val_setVal_other c b b' (c.val b ++ rng lo hi) (Ne.symm hne)
-    simpa [Ctx.val, Ctx.setVal] using this
-  · refine ⟨[.fin b lo hi (c.val b)], by simp [Ctx.finalScan, Ctx.setVal], ?_, ?_⟩
-    · intro e he; simp at he; exact ⟨lo, hi, c.val b, he⟩
-    · intro hv
-      simp [finals, chain, hv, hlt]
-
 theorem mid_bounds {g lo hi : Nat} (hg : 1 ≤ g) (h : g < hi - lo) : lo < mid lo hi ∧ mid lo hi < hi := by
   unfold mid; omega
-
-theorem scanTask_seq (g : Nat) (hg : 1 ≤ g) (o : Oracle) (ho : noSteal o) (L : Nat) :
-    ∀ (fuel lo hi : Nat) (b : Nat) (hasSS isRight : Bool) (pls : Option Nat) (c : Ctx),
-      L ≤ lo → lo < hi → b < c.heap.length → (isRight = true → pls = some b) →
-      SeqRes L lo hi b hasSS c (scanTask g o fuel lo hi b true hasSS isRight pls c) := by
-  intro fuel
-  induction fuel with
-  | zero =>
-      intro lo hi b hasSS isRight pls c hL0 hlt hb hpls
-      have hts : (isRight && (o.stolen lo hi || (some b != pls))) = false := by
-        cases isRight with
-        | false => rfl
-        | true => simp [ho lo hi, hpls rfl]
-      unfold scanTask
-      simp only [hts, Bool.false_eq_true, ↓reduceIte]
-      exact finalScan_seq L lo hi b hasSS c hlt hb none rfl
-  | succ fuel ih =>
-      intro lo hi b hasSS isRight pls c hL0 hlt hb hpls
-      have hts : (isRight && (o.stolen lo hi || (some b != pls))) = false := by
-        cases isRight with
-        | false => rfl
-        | true => simp [ho lo hi, hpls rfl]
-      unfold scanTask
-      simp only [hts, Bool.false_eq_true, ↓reduceIte]
-      split
-      · exact finalScan_seq L lo hi b hasSS c hlt hb none rfl
-      · rename_i hleaf
-        -- the task splits: the left part and then the right child run on `b`
-        have hdiv : g < hi - lo := by
-          simp at hleaf
-          have := hleaf.1.2
-          omega
-        have hm := mid_bounds hg hdiv
-        have hL := ih lo (mid lo hi) b true false none c hL0 hm.1 hb (by intro h; cases h)
-        generalize hLr : scanTask g o fuel lo (mid lo hi) b true true false none c = Lr at hL
-        obtain ⟨l1, l2, l3, l4, l5, l6, l7, l8⟩ := hL
-        simp only [if_true] at l3
-        have hR := ih (mid lo hi) hi b hasSS true Lr.sum Lr.ctx (by have := hm.1; omega) hm.2 (by rw [l5]; exact hb) (by intro _; exact l3)
-        generalize hRr : scanTask g o fuel (mid lo hi) hi b true hasSS true Lr.sum Lr.ctx = Rr at hR
-        obtain ⟨r1, r2, r3, r4, r5, r6, r7, r8⟩ := hR
-        simp only [r2, r1, l1, Option.isSome_none, Bool.false_and, Bool.false_or]
-        refine ⟨by simp, rfl, ?_, by simp [r4, l4], by simp [r5, l5], ?_, ?_, ?_⟩
-        · simp only [r3]; split <;> rfl
-        · simp only [Bool.false_eq_true, if_false]
-          rw [r6, l6, List.append_assoc, rng_split lo (mid lo hi) hi (by omega) (by omega)]
-        · intro b' hne
-          simp only [Bool.false_eq_true, if_false]
-          rw [r7 b' hne, l7 b' hne]
-        · obtain ⟨e1, f1, f2, f3⟩ := l8
-          obtain ⟨e2, g1, g2, g3⟩ := r8
-          refine ⟨e1 ++ e2, by simp [g1, f1], ?_, ?_⟩
-          · intro e he
-            simp only [List.mem_append] at he
-            rcases he with he | he
-            · exact f2 e he
-            · exact g2 e he
-          · intro hv
-            rw [finals_append]
-            refine chain_append L _ _ lo (mid lo hi) hi (f3 hv) (g3 ?_)
-            rw [l6, hv, rng_split L lo (mid lo hi)]
-            · exact hL0
-            · omega
-
-/-- no steal anywhere: pass 1 final-scans everything on `temp_body`, no pass 2, `temp_body.assign_to(body)` -/
-theorem scan_no_steal (g : Nat) (hg : 1 ≤ g) (o : Oracle) (ho : noSteal o) (lo hi : Nat) (hle : lo ≤ hi) :
-    ScanOK lo hi (scan g o lo hi) := by
-  unfold scan
-  by_cases hlt : lo < hi
-  · simp only [hlt, if_true]
-    have hc : ((({ heap := [[]] } : Ctx).alloc 0).1.rjoin 1 0).heap.length = 2 := by
-      simp [Ctx.alloc, Ctx.rjoin, Ctx.setVal]
-    have hv1 : ((({ heap := [[]] } : Ctx).alloc 0).1.rjoin 1 0).val 1 = [] := by
-      simp [Ctx.alloc, Ctx.rjoin, Ctx.setVal, Ctx.val]
-    have hlog : finals ((({ heap := [[]] } : Ctx).alloc 0).1.rjoin 1 0).log = [] := by
-      simp [Ctx.alloc, Ctx.rjoin, Ctx.setVal, finals]
-    have herr : ((({ heap := [[]] } : Ctx).alloc 0).1.rjoin 1 0).err = false := by
-      simp [Ctx.alloc, Ctx.rjoin, Ctx.setVal]
-    have h := scanTask_seq g hg o ho lo (hi - lo) lo hi 1 false false none
-      ((({ heap := [[]] } : Ctx).alloc 0).1.rjoin 1 0) (Nat.le_refl _) hlt (by simp [Ctx.alloc, Ctx.rjoin, Ctx.setVal]) (by intro h; cases h)
-    have e1 : (({ heap := [[]] } : Ctx).alloc 0).2 = 1 := by simp [Ctx.alloc]
-    simp only [e1]
-    generalize hr : scanTask g o (hi - lo) lo hi 1 true false false none ((({ heap := [[]] } : Ctx).alloc 0).1.rjoin 1 0) = r at h
-    obtain ⟨r1, r2, r3, r4, r5, r6, r7, ⟨evs, r8, r9, r10⟩⟩ := h
-    simp only [r1, STree.isNil, if_true]
-    refine ⟨?_, ?_, ?_⟩
-    · simp [Ctx.assign, Ctx.setVal, r4, herr]
-    · have : (r.ctx.assign 0 1).val 0 = r.ctx.val 1 := by
-        simp only [Ctx.assign]
-        have := val_setVal_same r.ctx 0 (r.ctx.val 1) (by rw [r5]; simp [Ctx.alloc, Ctx.rjoin, Ctx.setVal])
-        simpa [Ctx.val, Ctx.setVal] using this
-      rw [this, r6, hv1]; simp
-    · refine ⟨finals evs, ?_, ?_⟩
-      · have : finals (r.ctx.assign 0 1).log = finals evs := by
-          simp only [Ctx.assign, Ctx.setVal, r8, finals_append, hlog]
-          simp [finals]
-        rw [this]
-      · exact r10 (by rw [hv1]; simp [rng])
-  · have : lo = hi := by omega
-    subst this
-    simp only [Nat.lt_irrefl, if_false]
-    exact ⟨rfl, by simp [Ctx.val, rng], [], by simp [finals], by simp [chain]⟩
 
 end TbbVerif.C06.Scan
